@@ -148,6 +148,21 @@ def step(it, v, st):
                     raise Undecided("a map closure can panic: %s" % (val,))
                 outs.append((val, v2, st3))
         return outs
+    if k == "it:successors":
+        # successors(first, f): yields `first`, then f(&previous) ... until a None
+        cur, f = v.fields
+        if not is_opt(cur):
+            raise Undecided("successors over an unknown first element")
+        if cur.vi == 0:
+            return [(None, v, st)]
+        item = cur.field(0)
+        tmp = it.fresh_slot(st, item)
+        outs = []
+        for kind_, val, st3 in _apply(it, f, [tmp[1]], tmp[0]):
+            if kind_ != "ret":
+                raise Undecided("a successors closure can panic")
+            outs.append((item, it_adapt("successors", val, f), st3))
+        return outs
     if k in ("it:filter", "it:take_while", "it:skip_while"):
         inner, f = v.fields
         outs = []
@@ -384,6 +399,8 @@ def _call(it, name, args, st):
     m = _method(name)
     vals = [it.read_ref(st, a) for a in args]
     a0 = vals[0] if vals else None
+    if name == "std::iter::successors" and len(vals) == 2 and is_opt(vals[0]):
+        return [("ret", it_adapt("successors", vals[0], vals[1]), st)]
     # ---- IntoIterator -----------------------------------------------------------------------------------------------------
     if name.endswith("IntoIterator>::into_iter") or name == "std::iter::IntoIterator::into_iter":
         v = to_iter(it, args[0], st)
